@@ -452,6 +452,15 @@ func c13Levels(tier string) []core.Level {
 				emit(core.Case{Fam: "unknownstrategy", N: []int{st, other}})
 			}
 		}
+		for i := range c13Boundary {
+			for b := 0; b < 3; b++ {
+				for n := 0; n < 3; n++ {
+					for ch := 0; ch < 4; ch++ {
+						emit(core.Case{Fam: "filtertag", N: []int{i, b, n, ch}})
+					}
+				}
+			}
+		}
 	}})
 	lv = append(lv, core.Level{Name: "the twig escape filter on long values: a 2- / 3- / 4-byte character or '<' at every offset within 5 bytes of the multiples of 1024 up to 16384 and of 32768, 65536, 131072, x 5 strategies (and through auto-escaping)", Gen: func(emit func(core.Case)) {
 		var bases []int
@@ -719,6 +728,28 @@ func c13Run(c core.Case) core.Result {
 					return core.Violation("filter-differs", fmt.Sprintf("escape('%s') of %d x 'a' + %q + ...: the filter gives ...%q, the escaper ...%q", e.name, base-5+i, ch, tail(g, 60), tail(wl[i], 60)))
 				}
 			}
+		}
+		return core.Okay(true, "ok")
+	case "filtertag":
+		// the escape filter written as a filter section: the section's text (literal text, raw prints, prints in a
+		// .txt template) comes out html-escaped, alone and in front of / behind other filters
+		v := c13Boundary[c.N[0]] + "<b a='1'>&\"" + c13Boundary[c.N[0]]
+		body := []string{"LIT", "{{ v|raw }}", "x{{ v|raw }}y" + "LIT"}[c.N[1]]
+		body = strings.ReplaceAll(body, "LIT", "<i>&'lit'</i>")
+		name := []string{"t.html", "t.txt", "t"}[c.N[2]]
+		chain := []string{"escape", "escape|trim", "trim|escape", "upper|escape"}[c.N[3]]
+		env := twig.New(&stick.MemoryLoader{Templates: map[string]string{name: "[{% filter " + chain + " %}" + body + "{% endfilter %}]"}})
+		out, err, pan := tryExec(env, name, map[string]stick.Value{"v": v})
+		if pan != "" || err != nil {
+			return core.Violation("panic", fmt.Sprintf("{%% filter %s %%} in %s: %v %s", chain, name, err, pan))
+		}
+		mid := strings.TrimSuffix(strings.TrimPrefix(out, "["), "]")
+		if msg := htmlAlphabet(mid); msg != "" && name != "t.txt" {
+			return core.Violation("alphabet", fmt.Sprintf("{%% filter %s %%}%s{%% endfilter %%} in %s with v = %q renders %q: %s", chain, body, name, v, out, msg))
+		}
+		if name == "t.txt" && c.N[3] == 0 && c.N[1] == 0 {
+			// (what 'escape' means in a .txt template is not pinned here; the literal case in html is)
+			return core.Okay(true, "txt")
 		}
 		return core.Okay(true, "ok")
 	case "unknownstrategy":
